@@ -67,6 +67,7 @@ type CallRecord struct {
 	Res               *Result
 	Clauses           []Clause
 	Lost              bool
+	MsgsBefore        int  // in-flight messages known before the call
 	PreFrozenOrPaused bool // some entry the call named was frozen / its token paused in the pre-state
 	NonPayableDest    bool
 	Consumed          uint64
@@ -179,7 +180,7 @@ func mismatchProps(fn string, mm Mismatch) []string {
 // and only protocol entries of tokens named in the input / the account fields of the three account-level functions /
 // the keys listed by SaveKeyValue.
 func inFootprint(c *Call, v *Verdict, res *Result, account []byte, key string) bool {
-	okAcc := bytes.Equal(account, c.Caller) || bytes.Equal(account, c.Rcv) || bytes.Equal(account, vmcommon.SystemAccountAddress)
+	okAcc := bytes.Equal(account, c.Caller) || bytes.Equal(account, c.Rcv) || bytes.Equal(account, refSystemAccount)
 	for _, a := range c.Args {
 		if len(a) == len(c.Caller) && bytes.Equal(account, a) {
 			okAcc = true
@@ -198,7 +199,7 @@ func inFootprint(c *Call, v *Verdict, res *Result, account []byte, key string) b
 	case vmcommon.BuiltInFunctionSaveKeyValue:
 		for i := 0; i+1 < len(c.Args); i += 2 {
 			if key == string(c.Args[i]) {
-				return !strings.HasPrefix(key, vmcommon.ElrondProtectedKeyPrefix)
+				return !strings.HasPrefix(key, refProtectedPrefix)
 			}
 		}
 		return false
@@ -218,7 +219,7 @@ func inFootprint(c *Call, v *Verdict, res *Result, account []byte, key string) b
 			return true
 		}
 		if strings.HasPrefix(key, pfxESDT+ts) && len(key)-len(pfxESDT+ts) <= 8 {
-			if len(v.Suffixes) == 0 || bytes.Equal(account, vmcommon.SystemAccountAddress) {
+			if len(v.Suffixes) == 0 || bytes.Equal(account, refSystemAccount) {
 				return true
 			}
 			// the input names (token, nonce) pairs: only exactly those balance keys belong to its footprint
@@ -272,6 +273,7 @@ func (s *Shard) maxStoredValue() int {
 func (e *Engine) ExecCall(c *Call) *CallRecord {
 	rec := &CallRecord{Call: c}
 	m := e.M
+	rec.MsgsBefore = len(m.Msgs)
 	if c.MsgID != 0 {
 		if msg := m.msg(c.MsgID); msg == nil || (msg.Done && !c.Redeliver) {
 			rec.V = &Verdict{}
@@ -378,7 +380,7 @@ func (e *Engine) ExecCall(c *Call) *CallRecord {
 	// ---- generic diff monitors (they need only the pre-state flags, not the exact model)
 	for _, d := range res.Diff {
 		acct := []byte(d.Account)
-		isSys := bytes.Equal(acct, vmcommon.SystemAccountAddress)
+		isSys := bytes.Equal(acct, refSystemAccount)
 		if !inFootprint(c, v, res, acct, d.Key) {
 			add(clause([]string{"C05"}, c.Fn+"/outside-footprint", "%s changed %s key %q, which is neither an entry of a token named in its input nor in the sender, destination or system account", c.String(), shortAddr(acct), d.Key))
 		}
@@ -530,7 +532,7 @@ func attachedCallCheck(m *Model, c *Call, res *Result) []Clause {
 			dest, idx = c.Rcv, int(3*low64(args[0])+1)
 		}
 	}
-	if idx < 0 || idx >= len(args) || len(dest) != 32 || !m.local(dest, c.Shard) || !vmcommon.IsSmartContractAddress(dest) || c.RetErr {
+	if idx < 0 || idx >= len(args) || len(dest) != 32 || !m.local(dest, c.Shard) || !refIsSC(dest) || c.RetErr {
 		return nil
 	}
 	wantFn, wantArgs := string(args[idx]), args[idx+1:]
@@ -703,7 +705,7 @@ func (e *Engine) genericContinuation(c *Call, res *Result) {
 		return
 	}
 	dstShard := m.shardOf(c.Rcv)
-	if int(dstShard) < m.NShards && int(dstShard) != c.Shard && !bytes.Equal(c.Caller, c.Rcv) && !vmcommon.IsSmartContractAddress(c.Caller) && !vmcommon.IsSystemAccountAddress(c.Rcv) {
+	if int(dstShard) < m.NShards && int(dstShard) != c.Shard && !bytes.Equal(c.Caller, c.Rcv) && !refIsSC(c.Caller) && !refIsSystemAccount(c.Rcv) {
 		m.newMsg(&Msg{Kind: "generic", Fn: c.Fn, Caller: cp(c.Caller), Rcv: cp(c.Rcv), Args: args2bytes(c.Args), Gas: c.Gas, CallType: c.CallType})
 		return
 	}
